@@ -5,6 +5,7 @@ package core
 import (
 	"fmt"
 	"math/rand/v2"
+	"sort"
 	"strconv"
 	"strings"
 	"sync"
@@ -13,6 +14,8 @@ import (
 	"time"
 
 	"github.com/anishathalye/porcupine"
+	"github.com/bluenviron/gortsplib/v5/pkg/description"
+	"github.com/bluenviron/gortsplib/v5/pkg/format"
 
 	"github.com/bluenviron/mediamtx/internal/verifhook"
 	"verif.local/vmon"
@@ -37,6 +40,12 @@ var c16Model = porcupine.Model{
 		o := out.(c16Out)
 		switch i.Op {
 		case "add":
+			if strings.HasPrefix(i.ID, "B") { // tracks incompatible with the always-available stream: always refused
+				if cur == "" || i.Override {
+					return !o.OK && !strings.Contains(o.Err, "already publishing"), "" // the previous publisher has been removed by then
+				}
+				return !o.OK && strings.Contains(o.Err, "already publishing"), cur
+			}
 			if cur == "" || i.Override {
 				return o.OK, i.ID
 			}
@@ -102,6 +111,13 @@ func c16History(t *testing.T, r *vmon.Run, rng *rand.Rand, hi int, alwaysAvailab
 			cr := rand.New(rand.NewPCG(r.Seed(), seed))
 			for k := 0; k < 2+cr.IntN(3); k++ {
 				p := e.newPub(fmt.Sprintf("P%d", pubCount.Add(1)))
+				if alwaysAvailable && cr.IntN(4) == 0 {
+					// tracks that do not fit the always-available stream: the add is refused (after the previous publisher,
+					// when override is on, has already been kicked out); "B" marks the id for the model
+					p.id = "B" + p.id
+					p.desc = &description.Session{Medias: []*description.Media{
+						{Type: description.MediaTypeVideo, Formats: []format.Format{&format.H265{PayloadTyp: 96}}}}}
+				}
 				if err := p.add("p"); err != nil {
 					time.Sleep(time.Duration(cr.IntN(300)) * time.Microsecond)
 					continue
@@ -138,6 +154,8 @@ func c16History(t *testing.T, r *vmon.Run, rng *rand.Rand, hi int, alwaysAvailab
 	e.wg.Wait()
 	evs := e.snapshotEvents()
 	e.close()
+	// sequence numbers are drawn before an event is appended: order the log by them
+	sort.SliceStable(evs, func(i, j int) bool { return evs[i].Seq < evs[j].Seq })
 
 	// ---- porcupine: single-slot publisher register
 	type open struct {
@@ -145,6 +163,7 @@ func c16History(t *testing.T, r *vmon.Run, rng *rand.Rand, hi int, alwaysAvailab
 		in   c16In
 	}
 	opens := map[string]open{}
+	remCalls := map[string][]open{}
 	var ops []porcupine.Operation
 	client := map[string]int{}
 	for _, ev := range evs {
@@ -159,13 +178,14 @@ func c16History(t *testing.T, r *vmon.Run, rng *rand.Rand, hi int, alwaysAvailab
 			}
 			ops = append(ops, porcupine.Operation{ClientId: client[ev.Who], Input: o.in, Call: o.call, Output: out, Return: ev.Seq})
 		case "rempub-call":
-			opens["r"+ev.Who] = open{ev.Seq, c16In{"remove", ev.Who, override}}
+			// explicit and automatic removes of the same session may overlap: first call pairs with first return
+			remCalls[ev.Who] = append(remCalls[ev.Who], open{ev.Seq, c16In{"remove", ev.Who, override}})
 		case "rempub-ret":
-			o, ok := opens["r"+ev.Who]
-			if !ok {
+			if len(remCalls[ev.Who]) == 0 {
 				continue
 			}
-			delete(opens, "r"+ev.Who)
+			o := remCalls[ev.Who][0]
+			remCalls[ev.Who] = remCalls[ev.Who][1:]
 			// explicit and automatic removes of the same session may overlap: give them distinct client ids
 			ops = append(ops, porcupine.Operation{ClientId: 1000 + len(ops), Input: o.in, Call: o.call, Output: c16Out{OK: true}, Return: ev.Seq})
 		}
@@ -193,6 +213,31 @@ func c16History(t *testing.T, r *vmon.Run, rng *rand.Rand, hi int, alwaysAvailab
 	for _, ev := range evs {
 		if ev.Kind == "pub-close" && ev.Info == "1" {
 			closeSeq[ev.Who] = ev.Seq
+		}
+	}
+	// a publisher that was attached, did not leave by itself and was not told to close can only be the current one:
+	// every replaced publisher is cut off (the path calls Close() on it)
+	{
+		attached := map[string]bool{}
+		left := map[string]bool{}
+		for _, ev := range evs {
+			switch {
+			case ev.Kind == "addpub-ret" && ev.Info == "ok":
+				attached[ev.Who] = true
+			case ev.Kind == "rempub-call":
+				left[ev.Who] = true
+			}
+		}
+		var still []string
+		for id := range attached {
+			if _, closed := closeSeq[id]; !closed && !left[id] {
+				still = append(still, id)
+			}
+		}
+		if len(still) > 1 {
+			sort.Strings(still)
+			r.Violation(fmt.Sprintf("replaced-publisher-not-cut-off:aa=%v:override=%v", alwaysAvailable, override), fmt.Sprintf("publishers %v were all attached to the path, none of them left by itself and none was closed by the path: at most one of them is the current publisher, the others were replaced without being cut off", still), wbTrim(evs, 60))
+			return
 		}
 	}
 	// ---- conservation: nothing written after a session's RemovePublisher returned is ever delivered;
